@@ -170,7 +170,8 @@ fn seek_to(pos: u64, len: u64, s: SeekFrom) -> io::Result<u64> {
 impl<'a> Seek for SR<'a> {
     fn seek(&mut self, s: SeekFrom) -> io::Result<u64> {
         let dev = self.ctl.enter(CallKind::Seek, 0)?;
-        if dev.is_some() {
+        // only a fault makes a seek fail; a transparent deviation (short / interrupted) that lands on a seek is a no-op
+        if matches!(dev, Some(Dev::Error) | Some(Dev::Zero)) {
             return Err(injected());
         }
         self.pos = seek_to(self.pos, self.data.len() as u64, s)?;
@@ -223,7 +224,8 @@ impl<'a> Write for SW<'a> {
 impl<'a> Seek for SW<'a> {
     fn seek(&mut self, s: SeekFrom) -> io::Result<u64> {
         let dev = self.ctl.enter(CallKind::Seek, 0)?;
-        if dev.is_some() {
+        // only a fault makes a seek fail; a transparent deviation (short / interrupted) that lands on a seek is a no-op
+        if matches!(dev, Some(Dev::Error) | Some(Dev::Zero)) {
             return Err(injected());
         }
         self.pos = seek_to(self.pos, self.data.len() as u64, s)?;
